@@ -2,6 +2,9 @@ import TamocV.Gen.PhysPy
 import TamocV.Gen.PhysF
 import TamocV.Gen.EosPy
 import TamocV.Gen.EosF
+import TamocV.Gen.EosFullPy
+import TamocV.Gen.EosFullF
 open TamocV.Proto
 def main : IO Unit := run (orElse TamocV.Gen.PhysPy.dispatch (orElse TamocV.Gen.PhysF.dispatch
-  (orElse TamocV.Gen.EosPy.dispatch TamocV.Gen.EosF.dispatch)))
+  (orElse TamocV.Gen.EosPy.dispatch (orElse TamocV.Gen.EosF.dispatch
+  (orElse TamocV.Gen.EosFullPy.dispatch TamocV.Gen.EosFullF.dispatch)))))
